@@ -842,9 +842,9 @@ def C11(ctx):
             elif out != "err ValueError":
                 ctx.fail("empty mask not reported as ValueError", line=key, observed=out)
             ctx.case(key + str(dtype), 0 < sum(mask) < n, "valid-graph")
-    out = ctx.corr("cvg 2 None")
-    if out != "err ValueError":
-        ctx.fail("None mask not reported as ValueError", observed=out)
+    # (`vertices=None` is not a mask: the property says nothing about it, so it is neither demanded to be a
+    # ValueError nor compared with the model - a false alarm on a harmless rewrite showed the check asked for more
+    # than the property states, DESIGN.md §10.6)
 
 
 # =============================================================================== C12
@@ -1133,11 +1133,26 @@ def C15(ctx):
         one(rand_number(rng), rng.randrange(10))
 
 
+def _gen_current(ctx, module):
+    """the driver executes the definitions that were generated from the COMMITTED version of the source; when the
+    source in $DSW_REPO translates to something else, comparing them with the code would compare the old program
+    with the new one (every behaviour change, in or out of any property's domain, would show up as a disagreement of
+    the translator). The validation of the translator is therefore run only when the translation is current; the
+    re-check of the tie theorems against the new translation is tie.py's job."""
+    import tie
+    st = tie.state()
+    ok = not st["unavailable"] and not st["changed"]
+    ctx.classes["gen-validation:" + ("run" if ok else "skipped-source-changed")] = 1
+    return ok
+
+
 def GENOP(ctx):
     """validation of the translator: the definitions GENERATED from dsw/operation.py (DswModel.Gen.Operation,
     executed by the driver operation `gen`) against the real functions, on the contract of each function and
     on a malformed stream (wrong characters, empty strings, multi-digit operands, unexpected types)."""
     rng = ctx.rng
+    if not _gen_current(ctx, "operation"):
+        return
 
     def num(p_bad=0.12):
         r = rng.random()
@@ -1196,6 +1211,8 @@ def GENSW(ctx):
     decode (DswModel.Gen.Spiderweb, driver operation `gen`) against the real functions: well-formed and
     malformed graphs, both modes, tables, checks, need_path, foreign characters, wrong checks."""
     rng = ctx.rng
+    if not _gen_current(ctx, "spiderweb"):
+        return
     for it in range(ctx.n(500, 20000)):
         k = rng.choice([1, 2, 2, 3])
         r = rng.random()
@@ -1513,6 +1530,13 @@ def C18(ctx):
             if vars(SW).get(n) != v:
                 ctx.fail("module-level state changed by create_random_shuffles", name=n)
         ctx.case("shuf %d %d" % (k, seed), not np.array_equal(t1, other), "table")
+        # the table is a function of (k, seed) in the model too: MT19937 seeded once + NumPy's legacy shuffle
+        # (Model/Shuffle.lean); compared entry by entry with what NumPy produced
+        o = ctx.corr("shuf %d %d" % (k, seed))
+        if o != "ok " + "".join(str(int(x)) for x in t1.reshape(-1)):
+            ctx.fail("table differs between two calls with the same seed", k=k, seed=seed, observed=o[:80])
+    for seed in (0, 1, 2021, 2 ** 31, 2 ** 32 - 2, 2 ** 32 - 1, 2 ** 32, 2 ** 40 + rng.randrange(1000)):
+        ctx.corr("shuf %d %d" % (rng.choice([1, 2, 3]), seed))
 
 
 # =============================================================================== C19
